@@ -370,3 +370,104 @@ pub fn explore_diff(a: &SeqCfg, b: &SeqCfg, threads: usize) -> SeqReport {
 fn rep_name(a: &SeqCfg, b: &SeqCfg) -> String {
     format!("{} vs {}", a.name, b.name)
 }
+
+/// C19 over the wire: every toggled history up to `depth`, each clock-free segment sent as ONE
+/// write to a real server (so the requests of a segment are pipelined in the server's read
+/// buffer); the bytes received and the store reached must equal the in-process run of the same
+/// toggled history (which `explore_pair` compares with the all-loud run).
+pub fn bind_pipelined(loud: &SeqCfg, depth: usize, threads: usize) -> (u64, Vec<(String, String)>, Option<String>) {
+    use crate::net::{NetCfg, NetWorld};
+    let cfg_b = make_pair_cfg(loud);
+    let n = loud.alphabet.len();
+    // all index tuples of length 1..=depth over the 2n commands (a command without twin only once)
+    let usable: Vec<u16> = (0..2 * n).filter(|ci| *ci < n || loud.alphabet[*ci - n].toggled().is_some()).map(|c| c as u16).collect();
+    let mut tuples: Vec<Vec<u16>> = vec![];
+    let mut level: Vec<Vec<u16>> = vec![vec![]];
+    for _ in 0..depth {
+        let mut next = vec![];
+        for h in &level {
+            for c in &usable {
+                let mut h2 = h.clone();
+                h2.push(*c);
+                next.push(h2);
+            }
+        }
+        tuples.extend(next.iter().cloned());
+        level = next;
+    }
+    let results = crate::check_c09::par_map(&tuples, threads, |_, t| -> Result<Option<(String, String)>, String> {
+        // in-process run of the toggled history: segments of (request bytes, expected response bytes)
+        let mut rb = Runner::new(&cfg_b);
+        let mut segs: Vec<(Vec<u8>, Vec<u8>)> = vec![(vec![], vec![])];
+        let mut ticks: Vec<u64> = vec![];
+        for ci in t {
+            let ap = rb.apply(*ci as usize, &[]);
+            if !ap.applicable || ap.pruned {
+                return Ok(None);
+            }
+            if let Some(d) = ap.tick_secs {
+                ticks.push(d);
+                segs.push((vec![], vec![]));
+                continue;
+            }
+            let last = segs.last_mut().unwrap();
+            last.0.extend_from_slice(&ap.req_bytes);
+            last.1.extend_from_slice(&ap.out_bytes);
+        }
+        let exp_dump = rb.world.dump();
+        let w = NetWorld::new(NetCfg { item_limit: cfg_b.sut.item_limit, policy: cfg_b.sut.policy, ..Default::default() })?;
+        w.clock.set(cfg_b.start_time);
+        let mut c = w.connect()?;
+        let h: Hist = t.iter().map(|c| Elem { cmd: *c, choices: vec![] }).collect();
+        for (i, (req, exp)) in segs.iter().enumerate() {
+            if i > 0 {
+                w.clock.advance(ticks[i - 1]);
+            }
+            if req.is_empty() {
+                continue;
+            }
+            let before = c.got.len();
+            let sent = c.step(&w, req);
+            let got = &c.got[before..];
+            if sent.is_err() || got != &exp[..] {
+                let (a, _) = wire::split_responses(exp);
+                let (b, _) = wire::split_responses(got);
+                let kinds: Vec<String> = t.iter().map(|ci| cfg_b.alphabet[*ci as usize].kind().to_string()).collect();
+                return Ok(Some((
+                    format!("pipelined-over-tcp-differs|{}", kinds.join(",")),
+                    format!(
+                        "[{}] sent as one pipelined write: in-process {:?} / over TCP {:?}{}",
+                        hist_text(&cfg_b, &h).join(" ; "),
+                        a.iter().map(|x| x.short()).collect::<Vec<_>>(),
+                        b.iter().map(|x| x.short()).collect::<Vec<_>>(),
+                        if sent.is_err() { " (connection lost)" } else { "" }
+                    ),
+                )));
+            }
+        }
+        let dump = w.dump();
+        if let Some(d) = compare_dumps(&exp_dump, &dump) {
+            return Ok(Some((
+                "pipelined-over-tcp-effect".into(),
+                format!("[{}] sent as pipelined writes: store differs from the in-process run: {}", hist_text(&cfg_b, &h).join(" ; "), d),
+            )));
+        }
+        Ok(None)
+    });
+    let mut nrun = 0u64;
+    let mut bad: Vec<(String, String)> = vec![];
+    let mut mach = None;
+    for r in results {
+        match r {
+            Ok(None) => nrun += 1,
+            Ok(Some(x)) => {
+                nrun += 1;
+                if !bad.iter().any(|b| b.0 == x.0) && bad.len() < 40 {
+                    bad.push(x);
+                }
+            }
+            Err(e) => mach = Some(e),
+        }
+    }
+    (nrun, bad, mach)
+}
